@@ -27,10 +27,14 @@ type App struct {
 	Snapshots map[int][]byte
 	Refuse    func(itx hg.InternalTransaction) bool
 	Restores  [][]byte
+	RestoreAt []RestoreRec // one per entry of Restores
 	States    []state.State
 	FailNext  int // >0: the next commit returns an error (C02/C05 fault injection)
 	StepFn    func() int
 }
+
+// RestoreRec: the application was restored to the state after block Index when it had seen Commits commit calls.
+type RestoreRec struct{ Commits, Index int }
 
 type snapshot struct {
 	State []byte
@@ -106,6 +110,7 @@ func (a *App) RestoreHandler(snap []byte) ([]byte, error) {
 	}
 	a.State = s.State
 	a.Restores = append(a.Restores, append([]byte{}, snap...))
+	a.RestoreAt = append(a.RestoreAt, RestoreRec{Commits: len(a.Commits), Index: s.Index})
 	a.Snapshots[s.Index] = append([]byte{}, snap...)
 	return a.State, nil
 }
